@@ -25,6 +25,7 @@ package timer
 //@   ensures [C18] @ready result.tt == nil && result.ch != nil && chancap(result.ch) == 1 && chanlen(result.ch) == 0
 
 //@ func (*Timer).C
+//@   recvname t
 //@   loops 0
 //@   requires inv()
 //@   ensures [C18] @channel result == ite(t.tt == nil, t.ch, t.tt.C)
@@ -32,11 +33,15 @@ package timer
 // Height and View are the observers of the epoch; the clauses below speak through them, not through the fields
 // that happen to hold it
 //@ func (*Timer).Height
+//@   recvname t
 //@   inline
 //@ func (*Timer).View
+//@   recvname t
 //@   inline
 
 //@ func (*Timer).Reset
+//@   recvname t
+//@   params height, view, d
 //@   loops 0
 //@   requires inv()
 //@   ensures [C18] @inv inv()
@@ -48,16 +53,20 @@ package timer
 //@   ensures [C18] @notLate implies(d != 0, deadline(t.tt) <= clock() + d)
 //@   modifies *
 //@ func (*Timer).stop
+//@   recvname t
 //@   loops 0
 //@   ensures t.tt == nil
 //@   modifies tt
 //@ func drain
+//@   params ch
 //@   loops 0
 //@   requires ch != nil && 0 <= chanlen(ch) && chanlen(ch) <= 1
 //@   ensures chanlen(ch) == 0
 //@   modifies $chan.len
 
 //@ func (*Timer).Extend
+//@   recvname t
+//@   params d
 //@   loops 0
 //@   requires inv()
 // assumption about callers: accumulated durations stay far from the int64 range
